@@ -90,6 +90,15 @@ static void op_life(const V &a, V &r) {
       bootsNAND(&c[2], &c[0], &c[1], ck); sink = bootsSymDecrypt(&c[2], sk);
       for (int i = 0; i < n; i++) { c[0].a[i] = 0; c[1].a[i] = 0; } c[0].b = 1 << 29; c[1].b = 0;
       bootsAND(&c[2], &c[0], &c[1], ck); sink = bootsSymDecrypt(&c[2], sk); }
+    // the coefficient-domain twins of the bootstrapping (not reached by the gates): small n only, they cost n external products each
+    if (P->in_out_params->n <= 40) {
+        const LweParams *ex = &P->tgsw_params->tlwe_params->extracted_lweparams;
+        bootsSymEncrypt(&c[0], 1, sk);
+        tfhe_bootstrap(&c[2], ck->bk, 1 << 29, &c[0]); if (bootsSymDecrypt(&c[2], sk) != 1) wrong++;
+        LweSample *u = new_LweSample(ex); tfhe_bootstrap_woKS(u, ck->bk, 1 << 29, &c[0]); lweKeySwitch(&c[2], ck->bk->ks, u); if (bootsSymDecrypt(&c[2], sk) != 1) wrong++;
+        tfhe_bootstrap_woKS_FFT(u, ck->bkFFT, 1 << 29, &c[0]); lweKeySwitch(&c[2], ck->bkFFT->ks, u); if (bootsSymDecrypt(&c[2], sk) != 1) wrong++;
+        delete_LweSample(u);
+    }
     // serialisation round trips on both transports
     std::string pb, cb, sb, tb;
     if (tr == 1) { std::ostringstream o1, o2, o3, o4; export_tfheGateBootstrappingParameterSet_toStream(o1, P); export_tfheGateBootstrappingCloudKeySet_toStream(o2, ck);
